@@ -1,4 +1,4 @@
-import GateModel.C05.Lemmas
+import GateModel.C05.ShapesPackets
 import GateModel.Gen.C05
 /-
 C05 — Decoding untrusted packets never crashes or blows up memory.
@@ -14,9 +14,9 @@ or on nesting):
   * `decode_progress`         a successful decode consumed at least `minLen` bytes and never reads past the payload
   * `alloc_linear`            wire-sized allocations ≤ (array depth + 1) · |payload| + K, with K the static cap of the schema
   * `alloc_backed_on_success` … and on success they are backed by the bytes actually consumed
-  * `registered_schemas_bounded` for every modelled registered type, every supported protocol, both directions, every
-                              registry: the schema is productive, its array depth is ≤ 3 and K ≤ 4 MiB
-  * `registered_alloc_bound`  hence ≤ 5 · |payload| + 4 MiB for every one of them
+  * `registered_schemas_bounded` for every modelled packet type in EVERY context (any protocol number, direction,
+                              registry, id): the schema is productive, its array depth is ≤ 3 and K ≤ 2 MiB + 96 KiB
+  * `registered_alloc_bound`  hence ≤ 5 · |payload| + 2 MiB + 96 KiB for every one of them
 
 Process survival, real allocation and real termination of the Go decoders are runtime facts: they are observed by the
 hostile-payload run of the harness (every registered (registry, direction, protocol, id), unmodelled types included),
@@ -78,55 +78,44 @@ theorem packet_alloc_linear (ps : PSchema) (hp : productive ps.body = true) (bs 
       have := decode_progress ps.body hp bs v r hd
       simp only; omega
 
-/-! ### every modelled registered packet schema is productive and capped (finite table, kernel evaluation) -/
+/-! ### every modelled packet schema is productive and capped — in EVERY context
 
-/-- protocol numbers the registries exist for (regenerated `version.Versions` without Unknown/Legacy) -/
-def supportedProtos : List Int := (Gate.Gen.C05.versions.map (·.2)).filter (· ≥ 0)
+`all_good` (ShapesPackets.lean) is proved per type by following the structure of the schema; the conditions on the
+protocol number stay opaque, so the statement holds for every protocol number, direction, registry and packet id. -/
 
-def bounded (name : String) (c : Ctx) : Bool :=
-  match schemaOf name c with
-  | some ps => productive ps.body && decide (depth ps.body ≤ 3) && decide (K ps.body ≤ 4 * 2 ^ 20)
-  | none => false
+/-- 2 MiB (largest reader limit: the 1.7 byte-array limit 2 097 050) + one capped pre-allocation per array level -/
+def capBound : Nat := 2 ^ 21 + 3 * 32768
 
-def boundedAll (names : List String) : Bool :=
-  names.all fun name => supportedProtos.all fun p => [0, 1].all fun d => [0, 1, 2, 3, 4].all fun st =>
-    [0, 1].all fun id => bounded name ⟨p, d, st, id⟩
+theorem registered_schemas_bounded (name : String) (hn : name ∈ fullTypes ++ opaqueTypes) (c : Ctx) :
+    ∃ ps, schemaOf name c = some ps ∧ productive ps.body = true ∧ depth ps.body ≤ 3 ∧ K ps.body ≤ capBound := by
+  obtain ⟨ps, hs, hg⟩ := all_good name hn c
+  refine ⟨ps, hs, hg.prod, hg.dep, ?_⟩
+  have h := hg.cap
+  have hm : maxPre = 32768 := by decide
+  unfold capBound
+  unfold L at h
+  rw [hm] at h
+  omega
 
-theorem registered_schemas_bounded_full : boundedAll fullTypes = true := by decide +kernel
-theorem registered_schemas_bounded_opaque : boundedAll opaqueTypes = true := by decide +kernel
-
-/-- unfolding of the table: the packet id enters the schemas only through `id = 0`, so ids 0 and 1 cover all ids -/
-theorem registered_schemas_bounded (name : String) (hn : name ∈ fullTypes ++ opaqueTypes)
-    (p : Int) (hpv : p ∈ supportedProtos) (d : Nat) (hd : d ∈ [0, 1]) (st : Nat) (hst : st ∈ [0, 1, 2, 3, 4])
-    (id : Int) (hid : id ∈ [0, 1]) :
-    ∃ ps, schemaOf name ⟨p, d, st, id⟩ = some ps ∧ productive ps.body = true ∧ depth ps.body ≤ 3 ∧
-      K ps.body ≤ 4 * 2 ^ 20 := by
-  have hall : boundedAll (fullTypes ++ opaqueTypes) = true := by
-    unfold boundedAll
-    rw [List.all_append]
-    exact Bool.and_eq_true_iff.2 ⟨registered_schemas_bounded_full, registered_schemas_bounded_opaque⟩
-  unfold boundedAll at hall
-  have h := List.all_eq_true.1 (List.all_eq_true.1 (List.all_eq_true.1 (List.all_eq_true.1
-    (List.all_eq_true.1 hall name hn) p hpv) d hd) st hst) id hid
-  unfold bounded at h
-  cases hs : schemaOf name ⟨p, d, st, id⟩ with
-  | none => rw [hs] at h; cases h
-  | some ps =>
-    rw [hs] at h
-    simp only [Bool.and_eq_true, decide_eq_true_eq] at h
-    exact ⟨ps, rfl, h.1.1, h.1.2, h.2⟩
-
-/-- the bound of the property statement for every modelled registered packet: linear in the payload plus a fixed
-    cap (4 MiB: the largest reader limit, 2 MiB for 1.7 byte arrays, plus one capped pre-allocation per array level) -/
-theorem registered_alloc_bound (name : String) (hn : name ∈ fullTypes ++ opaqueTypes)
-    (p : Int) (hpv : p ∈ supportedProtos) (d : Nat) (hd : d ∈ [0, 1]) (st : Nat) (hst : st ∈ [0, 1, 2, 3, 4])
-    (id : Int) (hid : id ∈ [0, 1]) (bs : Bytes) :
-    ∃ ps, schemaOf name ⟨p, d, st, id⟩ = some ps ∧ palloc ps bs ≤ 5 * bs.length + 4 * 2 ^ 20 := by
-  obtain ⟨ps, hs, hp, hdp, hk⟩ := registered_schemas_bounded name hn p hpv d hd st hst id hid
+/-- the bound of the property statement for every modelled packet in every context: linear in the payload plus a
+    fixed cap -/
+theorem registered_alloc_bound (name : String) (hn : name ∈ fullTypes ++ opaqueTypes) (c : Ctx) (bs : Bytes) :
+    ∃ ps, schemaOf name c = some ps ∧ palloc ps bs ≤ 5 * bs.length + capBound := by
+  obtain ⟨ps, hs, hp, hdp, hk⟩ := registered_schemas_bounded name hn c
   refine ⟨ps, hs, ?_⟩
   have h1 := packet_alloc_linear ps hp bs
   have h2 : (depth ps.body + 2) * bs.length ≤ 5 * bs.length := Nat.mul_le_mul_right _ (by omega)
   omega
+
+/-- no modelled decoder can spin on a claimed count: every array element consumes at least one byte, so a decode
+    that succeeds performed at most |payload| element iterations per array level (`decode_progress`), and one that
+    fails stops at the first element that does not fit -/
+theorem registered_decode_progress (name : String) (hn : name ∈ fullTypes ++ opaqueTypes) (c : Ctx) (bs : Bytes)
+    (ps : PSchema) (hs : schemaOf name c = some ps) (v : Val) (r : Bytes) (h : ps.body.decode bs = .ok (v, r)) :
+    r.length + minLen ps.body ≤ bs.length := by
+  obtain ⟨ps', hs', hp, _, _⟩ := registered_schemas_bounded name hn c
+  rw [hs] at hs'; cases hs'
+  exact decode_progress ps.body hp bs v r h
 
 /-! ### source shape (regenerated facts) -/
 
@@ -163,14 +152,14 @@ def preallocUncapped (n : Nat) : Nat := n
 /-- five payload bytes (`ff ff ff ff 07` = 2^31-1) claimed 2^31-1 map slots before the fix; the capped reader takes 32768 -/
 theorem tagsupdate_alloc_fails_for_uncapped_variant :
     readVarInt [0xff, 0xff, 0xff, 0xff, 0x07] = .ok (2147483647, []) ∧
-    preallocUncapped 2147483647 > 5 * 5 + 4 * 2 ^ 20 ∧ prealloc none 2147483647 = 32768 := by
+    preallocUncapped 2147483647 > 5 * 5 + capBound ∧ prealloc none 2147483647 = 32768 := by
   refine ⟨by rfl, by decide, by decide⟩
 
 /-! ### non-vacuity -/
 
 example : productive (seqs [varint, .arr .err none (seqs [string, string])]) = true := by decide
 example : ∃ ps, schemaOf "packet.ServerLogin" ⟨767, 1, 3, 0⟩ = some ps ∧
-    palloc ps [5, 104, 101, 108, 108, 111] ≤ 5 * 6 + 4 * 2 ^ 20 :=
-  registered_alloc_bound "packet.ServerLogin" (by decide) 767 (by decide) 1 (by decide) 3 (by decide) 0 (by decide) _
+    palloc ps [5, 104, 101, 108, 108, 111] ≤ 5 * 6 + capBound :=
+  registered_alloc_bound "packet.ServerLogin" (by decide) ⟨767, 1, 3, 0⟩ _
 
 end Gate.C05.Props
